@@ -230,6 +230,7 @@ def run(tier, seed, t0):
     named = []
     samples = []
     good_pairs = set()
+    n_shrunk = 0
     for c, b, m in zip(cases, rb, rm):
         ob, om = classify(b), classify(m)
         wf_base, wf_mut_false = cres.get(c["id"] + "b", False), cres.get(c["id"] + "m", False)
@@ -275,7 +276,8 @@ def run(tier, seed, t0):
             continue
         cell["violation"] += 1
         payload = dict(info, outcome=om, expected="rejection with a diagnostic naming the problem; model: wf = false (proved)")
-        if om == "accepted":
+        if om == "accepted" and n_shrunk < 3:   # shrinking costs compilations: the first three only
+            n_shrunk += 1
             small = shrink_accepted(c["mut"], c["bad_text"])
             payload["shrunk_program"] = G.text(small)
         rep.violation(payload, True)
